@@ -580,8 +580,8 @@ var ruleSCC = &core.Rule{ID: "R16.1", Min: 2,
 			allFam := true
 			for _, f := range comp {
 				names = append(names, f.Name())
-				if !jm.fam[f] {
-					allFam = false
+				if !jm.fam[f] && !jm.wrap[f] {
+					allFam = false // wrappers run on the caller's state and hand the depth on (R16.2 follows them)
 				}
 			}
 			key := "recursive component {" + strings.Join(names, ",") + "}"
